@@ -140,3 +140,79 @@ package ast
 //@   inlined-loop 0:
 //@     invariant own: own(newMap) && own(newMap.records) && own(newMap.order)
 //@     invariant vals: forall k: string :: newMap.records.has(k) ==> copyrel(orderedMap.records[k], newMap.records[k])
+//
+// C04 - payload accessors: total only on types of the matching kind (the payload is then present by
+// IR well-formedness). They are expanded at every call site, so each caller has to establish the kind.
+//@ func Type.AsDisjunction
+//@   property C04
+//@   inline
+//@   requires t.Kind == KindDisjunction
+//
+//@ func Type.AsArray
+//@   property C04
+//@   inline
+//@   requires t.Kind == KindArray
+//
+//@ func Type.AsEnum
+//@   property C04
+//@   inline
+//@   requires t.Kind == KindEnum
+//
+//@ func Type.AsMap
+//@   property C04
+//@   inline
+//@   requires t.Kind == KindMap
+//
+//@ func Type.AsStruct
+//@   property C04
+//@   inline
+//@   requires t.Kind == KindStruct
+//
+//@ func Type.AsRef
+//@   property C04
+//@   inline
+//@   requires t.Kind == KindRef
+//
+//@ func Type.AsConstantRef
+//@   property C04
+//@   inline
+//@   requires t.Kind == KindConstantRef
+//
+//@ func Type.AsScalar
+//@   property C04
+//@   inline
+//@   requires t.Kind == KindScalar
+//
+//@ func Type.AsIntersection
+//@   property C04
+//@   inline
+//@   requires t.Kind == KindIntersection
+//
+//@ func Type.AsComposableSlot
+//@   property C04
+//@   inline
+//@   requires t.Kind == KindComposableSlot
+//
+//@ func Path.Last
+//@   property C04
+//@   inline
+//@   requires len(path) > 0
+//
+//@ func Path.RemoveLast
+//@   property C04
+//@   inline
+//@   requires len(path) > 0
+//
+// Functional options: every value of these function types writes only the listed fields of the value
+// it is applied to (each option closure in this package is verified against the frame).
+//@ functype TypeOption
+//@   property C04
+//@   modifies def.Nullable, def.Default, def.Hints, def.PassesTrail, def.PassesTrail[len(def.PassesTrail)], def.Scalar.Value, def.Disjunction.Discriminator, def.Disjunction.DiscriminatorMapping
+//
+//@ functype StructFieldOption
+//@   property C04
+//@   modifies field.Required, field.Comments, field.PassesTrail, field.PassesTrail[len(field.PassesTrail)]
+//
+//@ functype AssignmentOpt
+//@   property C04
+//@   modifies assignment.Method, assignment.Constraints
